@@ -222,10 +222,17 @@ func c04exec(c *vt.Ctx, r c04run) {
 			if len(parts) == 0 {
 				continue
 			}
+			// every third record is wrapped in JSON whitespace (space, tab, CR, LF), as peers
+			// that pretty-print or end lines with CR LF send it
+			pre, post := "", ""
+			if tokens%3 == 1 {
+				pre = []string{" ", "\r\n", "\t\r", "\n \r "}[tokens/3%4]
+				post = []string{"", "\r\n"}[tokens/12%2]
+			}
 			if len(parts) == 1 && !r.arr1 {
-				rig.Reply(parts[0])
+				rig.Reply(pre + parts[0] + post)
 			} else {
-				rig.Reply("[" + strings.Join(parts, ",") + "]")
+				rig.Reply(pre + "[" + pre + strings.Join(parts, post+","+pre) + post + "]" + post)
 			}
 			if r.settle {
 				rig.Settle()
